@@ -30,7 +30,7 @@ META = {
         "quick": {"evaluations": 8000, "distinct_nontrivial": 1500, "tables": {"arrayop": 4000, "vectorop": 3000, "form/autoray": 1500, "form/function": 1500, "feature/different-sectors": 500, "feature/mixed-dtype-blocks": 200}},
         "thorough": {"evaluations": 300000, "distinct_nontrivial": 40000, "tables": {"arrayop": 150000, "vectorop": 100000}},
     },
-    "wall": {"quick": 300, "thorough": 1500},
+    "wall": {"quick": 900, "thorough": 1500},
 }
 
 EXACT_TOL = dict(exact=True)
